@@ -2,10 +2,10 @@
 # Confirm every seeded mutation in a scratch worktree: patch applies, demo passes on the clean tree and
 # fails with the patch, the full test suite keeps exactly the baseline (520 passed / 11 failed).
 export OMP_NUM_THREADS=1 OPENBLAS_NUM_THREADS=1 MKL_NUM_THREADS=1 PYTHONHASHSEED=0 MPLBACKEND=Agg
-WT=/tmp/confirm_wt
+WT=${WT:-/tmp/confirm_wt}
 git -C /repo worktree remove --force $WT 2>/dev/null
 git -C /repo worktree add --detach $WT HEAD >/dev/null 2>&1 || exit 2
-OUT=/var/tmp/seeds/confirm.tsv
+OUT=${OUT:-/var/tmp/seeds/confirm.tsv}
 : > $OUT
 for d in "$@"; do
   id=$(basename $d)
